@@ -320,6 +320,103 @@ def run_and_validate(rep, pid, name, scenarios, templates, seed, nproc=None, mod
     return allruns
 
 
+def wide_monitor(tp):
+    """The predicates of Trace_Stream for fault-free runs, evaluated in Python's unbounded integers: for the runs whose byte
+    counters exceed TLC's 32-bit integers (inputs of 2 GiB and more).  Supplementary, outside TLC - the same events and the
+    same predicate names; everything below 2 GiB is validated by TLC.  Returns [(line, predicate)]."""
+    out = []
+    b = None
+    m = None
+    for ln, e in enumerate(read_jsonl(tp), 1):
+        ev = e["ev"]
+        if ev == "begin":
+            b = e
+            m = {"eof": False, "maxheap": 0, "unflushed": 0, "faulty": False}
+            continue
+        if b is None:
+            continue
+        enc = b["op"] == "enc"
+        total = b["plen"] if enc else b["flen"]
+        if ev in ("read", "write", "flush"):
+            if e["ret"] < 0 or (ev == "write" and e["ret"] == 0 and e["req"] > 0):
+                m["faulty"] = True
+            if e["heap"] > b["heapk"]:
+                out.append((ln, "E5_heap_not_constant" if enc else "D8_heap_not_constant"))
+            if enc:
+                if e["cons"] - e["cov"] > 3 * b["cs"]:
+                    out.append((ln, "E4_output_lags_input"))
+            else:
+                if e["acc"] < e["due"]:
+                    out.append((ln, "D7_output_lags_input"))
+                if ev == "write" and e["req"] > 0:
+                    if e["off"] + e["req"] > e["authc"]:
+                        out.append((ln, "D1_write_before_authenticated"))
+                    if not e["ok"]:
+                        out.append((ln, "D1_written_bytes_not_authentic_plaintext"))
+            if ev == "read" and e["ret"] == 0 and e["req"] > 0 and e["cons"] == total:
+                m["eof"] = True
+            if ev == "write" and e["ret"] > 0:
+                m["unflushed"] += e["ret"]
+            if ev == "flush" and e["ret"] == 0:
+                m["unflushed"] = 0
+            m["maxheap"] = max(m["maxheap"], e["heap"])
+        elif ev == "end":
+            if m["faulty"]:
+                raise ToolError("wide_monitor is for fault-free runs only")
+            if e["res"] in ("panic", "hang"):
+                out.append((ln, "E6_panic_or_hang" if enc else "D6_panic_or_hang"))
+            elif enc:
+                if e["res"] != "ok":
+                    out.append((ln, "E2_error_without_cause"))
+                else:
+                    R = b["recs"]
+                    legal = (len(R) >= 1 and all(r["ok"] and r["ctrok"] and r["n"] >= 1 and (1 <= r["len"] <= b["cs"] or (r["len"] == 0 and b["plen"] == 0 and len(R) == 1 and R[0]["n"] == 1)) for r in R)
+                             and all(r["last"] == 0 for r in R[:-1]) and R[-1]["last"] == 1 and R[-1]["n"] == 1
+                             and sum(r["n"] * r["len"] for r in R) == b["plen"] and b["residue"] == 0 and not b["dead"] and b["hdr_ok"]
+                             and b["sinklen"] == b["H"] + 32 * sum(r["n"] for r in R) + b["plen"] and e["cons"] == b["plen"])
+                    if not legal:
+                        out.append((ln, "E1_illegal_output"))
+                    if not m["eof"]:
+                        out.append((ln, "E1_success_without_end_of_data"))
+            else:
+                if e["res"] != "ok":
+                    out.append((ln, "D3_rejected_authentic_file"))
+                else:
+                    if e["acc"] != b["plen"]:
+                        out.append((ln, "D2_success_with_incomplete_output"))
+                    if not (e["cons"] == b["flen"] and m["eof"]):
+                        out.append((ln, "D2_success_without_end_of_data"))
+                    if not e["sender_ok"]:
+                        out.append((ln, "D2_wrong_sender_reported"))
+                if not e["boundary"]:
+                    out.append((ln, "D5_partial_chunk_released"))
+                if m["unflushed"] != 0:
+                    out.append((ln, "D5_accepted_bytes_not_flushed_when_the_call_returns"))
+            if b.get("heap_ref", -1) >= 0 and m["maxheap"] > b["heap_ref"] + 1024:
+                out.append((ln, "E5_heap_grows_with_input_length" if enc else "D8_heap_grows_with_input_length"))
+            if "heap" in e and e["heap"] > b["heapk"]:
+                out.append((ln, "E5_heap_not_constant" if enc else "D8_heap_not_constant"))
+            b = None
+    return out
+
+
+def run_wide(rep, pid, name, scenarios, templates, seed):
+    """Runs whose counters do not fit TLC's integers: recorded by the same driver, judged by wide_monitor."""
+    wd = workdir(pid, "run-" + name, clean=True)
+    for i, s in enumerate(scenarios):
+        sp = os.path.join(wd, "scn%d.jsonl" % i)
+        tp = os.path.join(wd, "trace%d.ndjson" % i)
+        write_jsonl(sp, [s])
+        run_driver(["stream", templates, sp, tp], env={"VERIF_SEED": seed}, timeout=3600)
+        viols = wide_monitor(tp)
+        n = sum(1 for _ in open(tp))
+        rep.extra.setdefault("runs_judged_in_64_bit_arithmetic_outside_tlc", []).append({"id": s.get("id"), "plen": s.get("plen"), "events": n})
+        for (ln, pred) in viols[:5]:
+            rep.violation("%s op=%s id=%s (64-bit evaluation outside TLC)" % (pred, s["op"], s.get("id")),
+                          {"engine": "stream", "predicate": pred, "scenario": s})
+        os.unlink(tp)
+
+
 def drift(runs):
     """Compare what the implementation did with what the Layer-B model predicted for the same
     scenario.  A difference is MODEL-DRIFT (my model no longer describes the code), never a
